@@ -94,9 +94,12 @@ class Output(BaseOutput):
             self.output_period = -self.output_period
         logger.info("  Output period: %s", str(self.output_period))
 
-        self.num_records = int(
-            abs((timer.stop_time - timer.start_time) // self.output_period)
-        )
+        # Records are written at steps 0, P, 2P, ... < Nsteps, with P = output_period_step
+        # (at steps P, 2P, ... <= Nsteps if the initial record is skipped by warm start)
+        if skip_initial:
+            self.num_records = int(timer.Nsteps // self.output_period_step)
+        else:
+            self.num_records = int(-(-timer.Nsteps // self.output_period_step))
         # if not skip_initial:  # Add an initial record
         #     self.num_records += 1
         logger.info("  Number of records: %s", self.num_records)
